@@ -272,7 +272,8 @@ impl From<&RangeList> for RangeMap {
 
         let mut exists_map = vec![false; map_len];
         for range in range_list.get_ranges().iter() {
-            for slot_num in range.start()..=range.end() {
+            // Slots at or above SLOT_NUM are never part of the map: do not iterate over them.
+            for slot_num in range.start()..=std::cmp::min(range.end(), SLOT_NUM - 1) {
                 if let Some(slot) = slot_num
                     .checked_sub(min_slot)
                     .and_then(|inner_index| exists_map.get_mut(inner_index))
